@@ -256,7 +256,7 @@ def expr(depth=2):
     fn = st.sampled_from(FUNCS)
     over = st.one_of(st.none(), st.none(), st.none(), st.tuples(st.lists(expr(0), min_size=0, max_size=2), st.lists(expr(0), min_size=0, max_size=2)).map(
         lambda t: seq(kw('OVER'), paren(seq(seq(kw('PARTITION'), kw('BY'), comma_list(t[0])) if t[0] else None,
-                                            seq(kw('ORDER BY'), comma_list(t[1])) if t[1] else None)))))
+                                            seq(kw('ORDER BY'), comma_list(t[1])) if t[1] else None), tight=True, over_lp=True))))
     return st.one_of(
         base, base, base, base, base, base,
         st.tuples(sub, st.sampled_from(BINOPS), sub).map(lambda t: W('binop', seq(_operand(t[0]), opl(t[1]), tight_first(_operand(t[2]))))),
@@ -388,13 +388,16 @@ def _lead(word, *rest, **meta):
 
 @functools.lru_cache(maxsize=None)
 def insert():
-    def mk(t, cols, rows, sel):
+    def mk(t, cols, rows, sel, upsert):
         head = seq(_lead('INSERT'), kw('INTO'), t, (paren(comma_list([[c] for c in cols])) if cols else None))
         if sel is not None:
             return seq(head, sel)
-        return seq(head, kw('VALUES'), comma_list([W('paren', paren(comma_list(r))) for r in rows]))
+        # upsert: a SET clause directly behind other keywords (ON CONFLICT DO UPDATE SET ...)
+        tail = seq(kw('ON'), kw('CONFLICT'), kw('DO'), L('kw', 'UPDATE'), kw('SET', clause=True),
+                   comma_list([seq([n], L('cmp', '=', True), tight_first(e)) for n, e in upsert])) if upsert else None
+        return seq(head, kw('VALUES'), comma_list([W('paren', paren(comma_list(r))) for r in rows]), tail)
     return st.builds(mk, column_ref, st.lists(any_name, max_size=3), st.lists(st.lists(expr(1), min_size=1, max_size=3), min_size=1, max_size=2),
-                     st.one_of(st.none(), st.none(), select(0)))
+                     st.one_of(st.none(), st.none(), select(0)), st.one_of(st.none(), st.lists(st.tuples(any_name, expr(0)), min_size=1, max_size=2)))
 
 
 @functools.lru_cache(maxsize=None)
